@@ -534,8 +534,16 @@ func genPrimAead(r *rand.Rand, n int) []string {
 				ns = r.Intn(20)
 			}
 		}
+		if r.Intn(10) == 0 { // the nonce lengths of the sibling constructions: 64-bit ChaCha nonces, XChaCha, the other CCM family, GCM
+			ns = []int{8, 24, 7, 13, 12, 16, 0}[r.Intn(7)]
+		}
 		big := i%25 == 0
 		k, nonce := randBytes(r, ks), randBytes(r, ns)
+		if r.Intn(6) == 0 && ns >= 8 { // constant || counter layout: leading zero octets
+			for j := 0; j < 4; j++ {
+				nonce[j] = 0
+			}
+		}
 		pt, aad := randBytes(r, msgLen(r, big)), randBytes(r, msgLen(r, big && r.Intn(2) == 0))
 		if i%40 == 3 { // AES-CCM-16-*: plaintext / ciphertext lengths around the 2^16 limit
 			alg = []int{10, 11, 30, 31}[r.Intn(4)]
